@@ -17,7 +17,15 @@
            machine (pending-CR treatment as in Csvq.Model.Csv), then
            `loadViewFromFixedLengthTextFile` (header line, c1…cn, `__@i__` for empty names).
            The automatic detection of positions (`Delimiter.Delimit`, a heuristic over the blank
-           columns of the whole file) is modelled in Csvq.Model.FixedAuto.  `SingleLine` is not modelled.
+           columns of the whole file) is modelled in Csvq.Model.FixedAuto.
+  `SingleLine` (delimiter positions `S[…]`: the records follow one another without line breaks), section
+  "single-line files" at the end:
+           * writer: `Writer.Write` with `SingleLine` writes no line break between records; `encodeFixedLengthFormat`
+             never writes the header line of a single-line file; `Transaction.Commit` (created and updated files) and the
+             processor's `--out` file write NO ending line break after a single-line file (a line break there IS a record);
+           * reader: `parseRecord` with `SingleLine` returns the record as soon as its last field is complete (the
+             "skip the rest of the line" loop is not run); a line break still ends a record early; the loader reads no
+             header line (`c1…cn`) and refuses empty positions.
 -/
 import Csvq.Model.Csv
 namespace Csvq.Fixed
@@ -263,5 +271,81 @@ def canonCell (o : Opts) (f : Field) : DCell := cellOf o.withoutNull (trim f.con
 def canon (o : Opts) (t : Table) : DTable :=
   ⟨if o.withoutHeader then autoNames t.header.length else autofill (t.header.map trim),
    t.rows.map (·.map (canonCell o))⟩
+
+/-! ## single-line files (`S[…]`) -/
+
+/-- `Writer.Write` with `SingleLine`: record after record, nothing in between -/
+def writeAllS (wd : Char → Nat) (ps : List Nat) : List (List Field) → Except EncErr (List Char)
+  | [] => .ok []
+  | r :: rs =>
+    match writeRecord wd false ps r with
+    | .error e => .error e
+    | .ok s =>
+      match writeAllS wd ps rs with
+      | .error e => .error e
+      | .ok rest => .ok (s ++ rest)
+
+/-- `encodeFixedLengthFormat`, explicit positions + `SingleLine`: the header is never written; without a header
+    AND without records there is nothing to write (`DataEmpty`) -/
+def encodeFixedS (wd : Char → Nat) (o : Opts) (ps : List Nat) (t : Table) : Except EncErr (List Char) :=
+  if o.withoutHeader && t.rows.isEmpty then .error .dataEmpty
+  else writeAllS wd ps t.rows
+
+/-- the ending line break `Transaction.Commit` / the processor (`--out`) put after a written file:
+    none when stripped, none after a single-line fixed-length file -/
+def endingAfter (singleLine strip : Bool) (lb : LB) : Option LB :=
+  if strip || singleLine then none else some lb
+
+/-- a committed single-line file -/
+def fileFixedS (wd : Char → Nat) (o : Opts) (ps : List Nat) (strip : Bool) (t : Table) : Except EncErr (List Char) :=
+  match encodeFixedS wd o ps t with
+  | .ok cs => .ok (cs ++ endingChars (endingAfter true strip o.lb))
+  | .error e => .error e
+
+/-- `parseRecord` with `SingleLine`: when the field loop is complete the record is returned -/
+def norm (ps : List Nat) (σ : St) : St :=
+  match σ.cols with
+  | [] => commit ps σ
+  | _ :: _ => σ
+
+def stepS (wd : Char → Nat) (ps : List Nat) (σ : St) (c : Char) : Except Err St :=
+  match step wd ps σ c with
+  | .ok σ' => .ok (norm ps σ')
+  | .error e => .error e
+
+def runS (wd : Char → Nat) (ps : List Nat) : St → List Char → Except Err St
+  | σ, [] => .ok σ
+  | σ, c :: cs =>
+    match stepS wd ps σ c with
+    | .ok σ' => runS wd ps σ' cs
+    | .error e => .error e
+
+def readAllS (wd : Char → Nat) (ps : List Nat) (inp : List Char) : Except Err St :=
+  if validFrom 0 ps = false then
+    match inp, ps with
+    | [], e :: _ => if 0 < e then .ok { cols := ps } else .error .parse
+    | _, _ => .error .parse
+  else
+    match runS wd ps { cols := ps } inp with
+    | .ok σ => finish ps σ
+    | .error e => .error e
+
+/-- the loader on a single-line file: empty positions are refused, no header line is read -/
+def decodeFixedS (wd : Char → Nat) (o : Opts) (ps : List Nat) (inp : List Char) : Except Err DTable :=
+  match ps with
+  | [] => .error .parse
+  | _ =>
+    match readAllS wd ps inp with
+    | .error e => .error e
+    | .ok σ => .ok (assemble { o with withoutHeader := true } ps.length σ.recs.reverse)
+
+def detectLBS (wd : Char → Nat) (ps : List Nat) (inp : List Char) : Option LB :=
+  match readAllS wd ps inp with
+  | .ok σ => σ.dlb
+  | .error _ => none
+
+/-- what must come back from a single-line file: the columns are `c1…cn`, edge blanks dropped, empty = NULL -/
+def canonS (o : Opts) (t : Table) : DTable :=
+  ⟨autoNames t.header.length, t.rows.map (·.map (canonCell o))⟩
 
 end Csvq.Fixed
